@@ -31,6 +31,18 @@ CLAIMED.update({
             "(evaluated on the constants) and renamed only after write+close, saved-marking only after a nil-error write, zero-length and unmatched files are never forwarded. What the kernel does and fsync ordering are assumed.", "§4 C04"),
 })
 
+CLAIMED.update({
+    "C05": ("static who-may-send/receive/launch analysis, dominance of sort over fill, lock-held dataflow, who-may-write LogChunk.ID",
+            "The structural carriers of ordering: each FIFO on the path has one producer role and one consumer goroutine, a flush sends one copy taken before truncation, every leftovers channel is built by the sort-then-fill-with-dedup constructor, "
+            "resend precedes new input, recovery is sorted and precedes feeder/worker start, chunk ids only come from the generator (counters under its mutex, fixed-width format). Wall-clock monotonicity and the interleavings are not decided.", "§4 C05"),
+    "C09": ("static exactly-once path enumeration and must-pass (cleaner between cut and store) over SSA; index safety by the C07 engine",
+            "Accounting and truncation clauses of the parser on every path: one of pass/drop per message after RawLength is set, nil exactly on drop paths with one release, overflow counted and UTF-8 clean-up on every path that cuts the message, "
+            "one release on input-stage drops. Header substring faithfulness is value-level and not decided.", "§4 C09"),
+    "C19": ("static exactly-once path enumeration with return-correlated summaries; must-call for counter flushes; operand provenance",
+            "Every counter update is tied to the event it describes on all paths (parser, pipeline worker, buffer, client), batched counters are flushed after the last count at stop/close/flush, the metric key set is selected before transforms count. "
+            "One known finding (input-stage drops are not accounted). The balance equations as numbers across goroutines are not decided.", "§4 C19"),
+})
+
 NOT_YET = {}
 
 NOT_APPLICABLE = {
